@@ -33,8 +33,10 @@ def run(ctx):
                 exhaustive = False
                 continue
             if r["status"] != "OK":
-                tot["crashed"] += 1
-                continue   # a crash of the kernel itself belongs to C04-C09 / C43
+                tot["crashed"] += 1   # the checker's own structures (deserialize_transition, Execution::push_transition) died on a legal execution
+                key = "C42 crash uses=%s" % mcprogs.features(p)
+                violations.setdefault(key, common.Violation(key, "crash while pushing a legal execution into odpor::Execution: %s -- program: %s" % ("; ".join(r["errors"])[:200], synccheck.compact(p)), dict(program=p, kind="crash")))
+                continue
             done += 1
             tot["programs"] += 1; tot["executions"] += r["nexec"]; tot["hb_pairs"] += r["hb_pairs"]; tot["race_sets"] += r["race_sets"]; tot["maxlen"] = max(tot["maxlen"], r["maxlen"])
             if r["nclasses"] >= 2:
@@ -68,4 +70,5 @@ def replay(ctx, case):
     print("program:", synccheck.compact(c["program"])); print(r["nexec"], "executions;", "hb mismatches", r["hb_bad"], "race mismatches", r["race_bad"], "asym", r["asym"])
     for n in r["notes"]:
         print("  ", n)
-    return 1 if (r["hb_bad"] or r["race_bad"] or r["asym"]) else 0
+    print("status", r["status"], r["errors"])
+    return 1 if (r["hb_bad"] or r["race_bad"] or r["asym"] or r["status"] != "OK") else 0
